@@ -39,6 +39,17 @@ CHECKS = {
              'partial: gap-creating writes are excluded from the theorem (known finding ctrio.write-past-eof-gap).',
         technique='Lean 4 refinement proof + model/implementation correspondence',
         design='§4 C12'),
+    'C07': dict(
+        text='Theorems: parse(build table) = stored entries for every table of ten optional well-formed slots with '
+             'distinct names (byte-level: chunk slicing, LE round trip, NUL stripping, dict insertion); the four '
+             'alias spellings normalise to N; not-stored names raise not-found; a bad offset / non-ASCII name in any '
+             'slot is the reader result; an opened entry is the window [start+0x200+offset, +size) (C09).  Tied to '
+             'ExeFSReader by differential execution on spec-built headers (and malformed ones) with a direct '
+             'table-vs-reader monitor and byte reads through all spellings.',
+        note=COMMON_NOTE + 'Exefs.build is the trusted specification of the header layout; names are ASCII byte strings; '
+             'str.lower/endswith modelled for ASCII only.',
+        technique='Lean 4 round-trip proof + model/implementation correspondence',
+        design='§4 C07'),
     'C08': dict(
         text='Theorems: Python rol on unbounded ints = 128-bit rotation; keygen_manual / keygen_twl_manual equal the '
              'BitVec-128 hardware scramblers for ALL X, Y; the ghost-state coherence invariant (formula / direct / '
